@@ -38,6 +38,9 @@ func (c *SubscriptionManager) AddSubscription(remoteDevice api.DeviceRemoteInter
 	if serverFeature == nil {
 		return fmt.Errorf("server feature '%s' in local device '%s' not found", data.ServerAddress, *c.localDevice.Address())
 	}
+	if data.ServerFeatureType == nil {
+		return errors.New("serverFeatureType is missing but required")
+	}
 	if err := c.checkRoleAndType(serverFeature, model.RoleTypeServer, *data.ServerFeatureType); err != nil {
 		return err
 	}
@@ -91,6 +94,10 @@ func (c *SubscriptionManager) RemoveSubscription(data model.SubscriptionManageme
 	//    present and set to the sender's "device" address part.
 	// b. The absence of "subscriptionDelete. serverAddress. device" SHALL be treated as if it was
 	//    present and set to the recipient's "device" address part.
+
+	if data.ClientAddress == nil {
+		return errors.New("clientAddress is missing but required")
+	}
 
 	var clientAddress model.FeatureAddressType
 	util.DeepCopy(data.ClientAddress, &clientAddress)
